@@ -53,6 +53,33 @@ def ev(sv, env):
         return r
     if t == "ite":
         return ev(sv[2], env) if ev(sv[1], env) else ev(sv[3], env)
+    if t == "sub":
+        try:
+            return ev(sv[1], env)[ev(sv[2], env)]
+        except (IndexError, KeyError, TypeError) as e:
+            raise CannotEval(f"subscript: {e}")
+    if t == "slice":
+        base = ev(sv[1], env)
+        lo = ev(sv[2], env) if sv[2] is not None else None
+        hi = ev(sv[3], env) if sv[3] is not None else None
+        try:
+            return base[lo:hi]
+        except TypeError as e:
+            raise CannotEval(str(e))
+    if t == "len":
+        try:
+            return len(ev(sv[1], env))
+        except TypeError as e:
+            raise CannotEval(str(e))
+    if t == "tuple":
+        return tuple(ev(x, env) for x in sv[1])
+    if t == "call" and sv[1] in ("range", "enumerate", "list", "tuple", "len", "reversed"):
+        args = [ev(a, env) for a in sv[2]]
+        try:
+            r = {"range": range, "enumerate": enumerate, "list": list, "tuple": tuple, "len": len, "reversed": reversed}[sv[1]](*args)
+        except TypeError as e:
+            raise CannotEval(str(e))
+        return list(r) if sv[1] in ("range", "enumerate", "reversed") else r
     if t == "call" and sv[1] in ("min", "max", "abs", "int", "bool", "cast"):
         args = [ev(a, env) for a in sv[2]]
         if sv[1] == "cast":
